@@ -36,6 +36,12 @@ Val(n) == CASE n = "i1" -> Sc("int", 10000) [] n = "i2" -> Sc("int", 20000) [] n
             [] n = "D_A1" -> V("dict", 10000, "abc", "upper", <<>>) [] n = "D_a2" -> V("dict", 20000, "abc", "plain", <<>>)
             [] n = "D_a1" -> V("dict", 10000, "abc", "plain", <<>>)
             [] n = "huge" -> Sc("int", 2000000000)         \* stands for 10**400: an int no float can hold
+            \* sets (only partially ordered by inclusion), a float NaN (unordered, unequal to everything) and infinity
+            [] n = "S1" -> V("set", 0, "-", "-", <<Sc("int", 10000)>>) [] n = "S2" -> V("set", 0, "-", "-", <<Sc("int", 20000)>>)
+            [] n = "S12" -> V("set", 0, "-", "-", <<Sc("int", 10000), Sc("int", 20000)>>)
+            [] n = "Sf" -> V("set", 0, "-", "-", <<Sc("float", 10000), Sc("float", 10005)>>)
+            [] n = "Sg" -> V("set", 0, "-", "-", <<Sc("float", 10000), Sc("float", 20000)>>)
+            [] n = "nan" -> Sc("nan", 0) [] n = "inf" -> Sc("float", 2100000000)
             [] n = "T1a" -> V("tuple", 0, "-", "-", <<Sc("int", 10000), St("abc", "plain")>>)
             [] OTHER -> Sc("none", 0)
 
@@ -43,7 +49,11 @@ Numeric(v) == v.k \in {"int", "bool", "float"}
 Abs(n) == IF n < 0 THEN -n ELSE n
 Delta == 10
 RECURSIVE PyEq(_, _)
-PyEq(l, r) == IF Numeric(l) /\ Numeric(r) THEN l.x = r.x
+PyEq(l, r) == IF l.k = "nan" \/ r.k = "nan" THEN FALSE
+              ELSE IF l.k = "set" /\ r.k = "set"
+                   THEN (\A i \in 1..Len(l.e) : \E j \in 1..Len(r.e) : PyEq(l.e[i], r.e[j]))
+                        /\ (\A j \in 1..Len(r.e) : \E i \in 1..Len(l.e) : PyEq(l.e[i], r.e[j]))
+              ELSE IF Numeric(l) /\ Numeric(r) THEN l.x = r.x
               ELSE IF l.k = "str" /\ r.k = "str" THEN l.core = r.core /\ l.deco = r.deco
               ELSE IF l.k = r.k /\ l.k \in {"list", "tuple"}
                    THEN Len(l.e) = Len(r.e) /\ \A i \in 1..Len(l.e) : PyEq(l.e[i], r.e[i])
@@ -53,11 +63,18 @@ PyEq(l, r) == IF Numeric(l) /\ Numeric(r) THEN l.x = r.x
 \* (OverflowError); dictionaries whose keys agree only after normalisation (the value lookup fails).  On these
 \* assert_equal must fail (the operands are not equal under any reading); assert_not_equal is left unspecified.
 IsHuge(v) == v.k = "int" /\ v.x = 2000000000
-Uneval(l, r) == \/ (IsHuge(l) /\ r.k = "float") \/ (IsHuge(r) /\ l.k = "float")
+Uneval(l, r) == \/ (IsHuge(l) /\ r.k \in {"float", "nan"}) \/ (IsHuge(r) /\ l.k \in {"float", "nan"})
                 \/ (l.k = "dict" /\ r.k = "dict" /\ l.core = r.core /\ l.deco # r.deco)
 \* documented equality: tolerance when either side is a float, normalised strings, recursion into sequences
 RECURSIVE Eq(_, _)
-Eq(l, r) == IF Numeric(l) /\ Numeric(r)
+Eq(l, r) == IF l.k = "nan" \/ r.k = "nan" THEN FALSE
+            \* sets: same size and the elements pair off one-to-one under the tolerant equality
+            ELSE IF l.k = "set" /\ r.k = "set"
+                 THEN /\ Len(l.e) = Len(r.e)
+                      /\ \/ Len(l.e) = 0
+                         \/ Len(l.e) = 1 /\ Eq(l.e[1], r.e[1])
+                         \/ Len(l.e) = 2 /\ ((Eq(l.e[1], r.e[1]) /\ Eq(l.e[2], r.e[2])) \/ (Eq(l.e[1], r.e[2]) /\ Eq(l.e[2], r.e[1])))
+            ELSE IF Numeric(l) /\ Numeric(r)
             THEN (IF "float" \in {l.k, r.k} THEN Abs(l.x - r.x) < Delta ELSE l.x = r.x)
             ELSE IF l.k = "str" /\ r.k = "str" THEN l.core = r.core
             ELSE IF l.k = r.k /\ l.k \in {"list", "tuple"}
@@ -65,7 +82,8 @@ Eq(l, r) == IF Numeric(l) /\ Numeric(r)
             ELSE PyEq(l, r)
 \* the pinned code applied the tolerance only when the EXPECTED (right) operand is a float
 RECURSIVE EqExpectedOnly(_, _)
-EqExpectedOnly(l, r) == IF Numeric(l) /\ Numeric(r)
+EqExpectedOnly(l, r) == IF l.k \in {"nan", "set"} \/ r.k \in {"nan", "set"} THEN Eq(l, r)
+            ELSE IF Numeric(l) /\ Numeric(r)
             THEN (IF r.k = "float" THEN Abs(l.x - r.x) < Delta ELSE l.x = r.x)
             ELSE IF l.k = "str" /\ r.k = "str" THEN l.core = r.core
             ELSE IF l.k = r.k /\ l.k \in {"list", "tuple"}
@@ -76,7 +94,13 @@ EqUsed(l, r) == IF "tolerance_expected_only" \in Flags THEN EqExpectedOnly(l, r)
 StrRank(v) == IF v.core = "" THEN 0 ELSE IF v.core = "abd" THEN 4
               ELSE IF v.deco = "upper" THEN 1 ELSE IF v.deco = "plain" THEN 2 ELSE 3
 RECURSIVE Ord(_, _)
-Ord(l, r) == IF Numeric(l) /\ Numeric(r) THEN (IF l.x < r.x THEN "lt" ELSE IF l.x = r.x THEN "eq" ELSE "gt")
+\* "inc": the operands are comparable without error but NONE of <, <=, >, >= holds (NaN; sets that are not nested)
+SubsetOf(l, r) == \A i \in 1..Len(l.e) : \E j \in 1..Len(r.e) : PyEq(l.e[i], r.e[j])
+Ord(l, r) == IF (l.k = "nan" /\ (Numeric(r) \/ r.k = "nan")) \/ (r.k = "nan" /\ Numeric(l)) THEN "inc"
+             ELSE IF l.k = "set" /\ r.k = "set"
+                  THEN (IF SubsetOf(l, r) /\ SubsetOf(r, l) THEN "eq" ELSE IF SubsetOf(l, r) THEN "lt"
+                        ELSE IF SubsetOf(r, l) THEN "gt" ELSE "inc")
+             ELSE IF Numeric(l) /\ Numeric(r) THEN (IF l.x < r.x THEN "lt" ELSE IF l.x = r.x THEN "eq" ELSE "gt")
              ELSE IF l.k = "str" /\ r.k = "str"
                   THEN (IF StrRank(l) < StrRank(r) THEN "lt" ELSE IF StrRank(l) = StrRank(r) THEN "eq" ELSE "gt")
              ELSE IF l.k = r.k /\ l.k \in {"list", "tuple"}
@@ -86,23 +110,27 @@ Ord(l, r) == IF Numeric(l) /\ Numeric(r) THEN (IF l.x < r.x THEN "lt" ELSE IF l.
                         ELSE IF Len(l.e) = 1 THEN "lt" ELSE IF Len(r.e) = 1 THEN "gt"
                         ELSE Ord(l.e[2], r.e[2]))
              ELSE "U"
-Truthy(v) == CASE Numeric(v) -> v.x # 0 [] v.k = "str" -> v.core # "" [] v.k \in {"list", "tuple"} -> v.e # <<>>
+Truthy(v) == CASE v.k = "nan" -> TRUE [] v.k = "set" -> v.e # <<>> [] Numeric(v) -> v.x # 0 [] v.k = "str" -> v.core # "" [] v.k \in {"list", "tuple"} -> v.e # <<>>
                [] v.k = "dict" -> TRUE
                [] OTHER -> FALSE
-HasLen(v) == v.k \in {"str", "list", "tuple", "dict"}
+HasLen(v) == v.k \in {"str", "list", "tuple", "dict", "set"}
 LenOf(v) == IF v.k = "dict" THEN 1 ELSE IF v.k = "str" THEN (IF v.core = "" THEN 0 ELSE 3 + (IF v.deco = "punct" THEN 1 ELSE 0)) ELSE Len(v.e)
 \* substring relation among the strings of the universe (case-sensitive, exact text)
 SubStr(n, h) == \/ n.core = "" \/ (n.core = h.core /\ n.deco = h.deco) \/ (n.core = "abc" /\ n.deco = "plain" /\ h.core = "abc" /\ h.deco = "punct")
 B(x) == IF x THEN "T" ELSE "F"
 Neg(t) == IF t = "T" THEN "F" ELSE IF t = "F" THEN "T" ELSE t
-In(l, r) == IF r.k \in {"list", "tuple"} THEN B(\E i \in 1..Len(r.e) : PyEq(l, r.e[i]))
+\* (a set needle is looked up as a frozenset by set.__contains__, so `{1} in {1}` is simply False, not an error)
+In(l, r) == IF r.k = "set" THEN (IF l.k \in {"list", "dict"} THEN "U" ELSE IF l.k = "set" THEN "F"
+                                 ELSE B(\E i \in 1..Len(r.e) : PyEq(l, r.e[i])))
+            ELSE IF r.k \in {"list", "tuple"} THEN B(\E i \in 1..Len(r.e) : PyEq(l, r.e[i]))
             ELSE IF r.k = "str" THEN (IF l.k = "str" THEN B(SubStr(l, r)) ELSE "U")
-            ELSE IF r.k = "dict" THEN (IF l.k \in {"list", "dict"} THEN "U"      \* unhashable needle
+            ELSE IF r.k = "dict" THEN (IF l.k \in {"list", "dict", "set"} THEN "U"      \* unhashable needle
                                        ELSE B(l.k = "str" /\ l.core = r.core /\ l.deco = r.deco))
             ELSE "U"
 Cmp(l, r, ok) == IF Ord(l, r) = "U" THEN "U" ELSE B(Ord(l, r) \in ok)
 \* len(seq) <rel> n : equality with a non-number is simply False, ordering against a non-number cannot be evaluated
 LenRel(l, r, ok) == IF ~HasLen(l) THEN "U"
+                    ELSE IF r.k = "nan" THEN B(ok = {"lt", "gt"})          \* only != holds against NaN
                     ELSE IF ~Numeric(r) THEN (IF ok = {"eq"} THEN "F" ELSE IF ok = {"lt", "gt"} THEN "T" ELSE "U")
                     ELSE B((IF LenOf(l) * 10000 < r.x THEN "lt" ELSE IF LenOf(l) * 10000 = r.x THEN "eq" ELSE "gt") \in ok)
 
@@ -132,7 +160,7 @@ ElemsAre(v, k) == \A i \in 1..Len(v.e) : v.e[i].k = k
 NoElemIs(v, k) == \A i \in 1..Len(v.e) : v.e[i].k # k
 ListOf(v, k) == IF v.k # "list" THEN "F" ELSE IF ElemsAre(v, k) THEN "T" ELSE IF NoElemIs(v, k) THEN "F" ELSE "X"
 TypeMatch(v, t) ==
-    CASE t \in {"t:int", "s:int"} -> B(v.k = "int") [] t = "t:float" -> B(v.k = "float") [] t \in {"t:str", "s:str"} -> B(v.k = "str")
+    CASE t \in {"t:int", "s:int"} -> B(v.k = "int") [] t = "t:float" -> B(v.k \in {"float", "nan"}) [] t \in {"t:str", "s:str"} -> B(v.k = "str")
       [] t = "t:bool" -> B(v.k = "bool") [] t \in {"t:list", "s:list"} -> B(v.k = "list") [] t = "t:tuple" -> B(v.k = "tuple")
       [] t = "t:dict" -> B(v.k = "dict")
       [] t \in {"g:list_int", "sg:list_int", "lit:list_int"} -> ListOf(v, "int")
@@ -163,7 +191,7 @@ RDom(a) == IF OutFam(a) THEN OutTexts
            ELSE IF a \in {"type", "not_type"} THEN TypeExprs
            ELSE IF a \in {"regex", "not_regex"} THEN {"abc", "ABC", "abc!", "abd", "empty", "i1", "L12", "none", "err"} \cap (ValNames \cup {"err"})
            ELSE ValNames
-InstanceOf(v, t) == CASE t = "t:int" -> v.k \in {"int", "bool"} [] t = "t:float" -> v.k = "float" [] t = "t:str" -> v.k = "str"
+InstanceOf(v, t) == CASE t = "t:int" -> v.k \in {"int", "bool"} [] t = "t:float" -> v.k \in {"float", "nan"} [] t = "t:str" -> v.k = "str"
                       [] t = "t:list" -> v.k = "list" [] t = "t:bool" -> v.k = "bool" [] t = "t:tuple" -> v.k = "tuple" [] OTHER -> FALSE
 \* re.search(pattern, str(text)) on the universe's texts
 TextOf(n) == CASE n = "abc" -> "abc" [] n = "ABC" -> "ABC" [] n = "abc!" -> "abc!" [] n = "abd" -> "abd" [] n = "empty" -> ""
@@ -223,9 +251,13 @@ Spec == Init /\ [][Next]_vars
 \* the table theorems do not depend on the state; they are evaluated in one designated reachable state only
 TheoremState == kind = "unit_test" /\ done = 0 /\ cases = <<"pass">>
 Evaluable(x, y) == Val(x).k # "err" /\ Val(y).k # "err"
+\* ordering on operands of which none of <, <=, >, >= holds: both the assertion and its counterpart must fail there
+\* (each is silent exactly when ITS relation holds), so the complement law is stated for the other cells
+Unordered(aa, x, y) == \/ aa \in {"less", "less_equal", "greater", "greater_equal"} /\ Ord(Val(x), Val(y)) = "inc"
+                       \/ aa \in {"length_less", "length_greater_equal"} /\ Val(y).k = "nan"
 Complement == TheoremState => \A aa \in Asserts : Negation(aa) \in Asserts =>
     \A x \in LDom(aa), y \in RDom(aa) :
-        (x # "err" /\ y # "err" /\ HoldsAny(aa, x, y) \in {"T", "F"} /\ HoldsAny(Negation(aa), x, y) \in {"T", "F"}) =>
+        (x # "err" /\ y # "err" /\ ~Unordered(aa, x, y) /\ HoldsAny(aa, x, y) \in {"T", "F"} /\ HoldsAny(Negation(aa), x, y) \in {"T", "F"}) =>
             (HoldsAny(aa, x, y) = "T" <=> HoldsAny(Negation(aa), x, y) = "F")
 EqSymmetric == TheoremState => \A x \in ValNames, y \in ValNames : Holds("equal", Val(x), Val(y)) = Holds("equal", Val(y), Val(x))
 NeverBothPass == TheoremState => \A aa \in Asserts : Negation(aa) \in Asserts =>
